@@ -86,14 +86,14 @@ def operand(n):
 
 def expr(n):
     """parse_expression level: for / while / def need parentheses"""
-    if n["n"] in ("for", "while", "def"):
+    if n["n"] in ("for", "while", "def", "ddef"):
         return paren(src(n))
     return src(n)
 
 
 def orexpr(n):
     """parse_or_expr level (conditions, if branches): also `if` needs them"""
-    if n["n"] in ("for", "while", "def", "if"):
+    if n["n"] in ("for", "while", "def", "ddef", "if"):
         return paren(src(n))
     return src(n)
 
@@ -161,7 +161,17 @@ def src(n):
             return f"def {n['s']}({params_src(e['a'][0])}) {block_src(e['a'][1])}"
         return f"def {n['s']} = {expr(e)}"
     if t == "assign":
+        e0 = a[0]
+        # `x = x + e` is also written `x += e` (the parser builds the same node); which spelling is used is a
+        # fixed function of the text
+        if e0["n"] == "bin" and e0["s"] in ("+", "-", "*", "/", "%") and e0["a"][0]["n"] == "var" \
+                and e0["a"][0]["s"] == n["s"] and len(src(e0["a"][1])) % 2 == 0:
+            return f"{n['s']} {e0['s']}= {expr(e0['a'][1])}"
         return f"{n['s']} = {expr(a[0])}"
+    if t == "dassign":
+        return "[" + ", ".join(a[0]) + "] = " + expr(a[1])
+    if t == "ddef":
+        return "def [" + ", ".join(a[0]) + "] = " + expr(a[1])
     if t == "block":
         return block_src(n)
     if t == "if":
